@@ -983,6 +983,15 @@ pub fn gen_invocation(
             ]))
             .to_owned(),
         )
+    } else if allow_in_place && backend != Backend::Memory && rng.chance(1, 25) {
+        // the output location of a directory input exists as a regular file: no
+        // destination directory can be created, every source must be reported
+        let name = if rng.chance(1, 2) { "blocked-output" } else { "blocked.lua" };
+        extra.push(FsEntry {
+            path: name.to_owned(),
+            body: Body::Text("a regular file where the output directory should be\n".to_owned()),
+        });
+        Some(name.to_owned())
     } else {
         Some((*rng.pick(OUTPUT_DIRS)).to_owned())
     };
